@@ -165,7 +165,13 @@ def check_computed(ctx, R="C04.computed"):
             elif t in (f"not isinstance({a}.intersect({b}), EmptyRegion)", f"isinstance({b}.occupiedSpace.difference({a}), EmptyRegion)", f"isinstance({b}.difference({a}), EmptyRegion)"):
                 why = "emptiness of the exact boolean operation"
             elif "in_collision_internal" in t or "fcl.collide" in t or ("collision" in t and "surface" in t):
-                why = "exact surface collision query"
+                # the surface query as the final answer (so also as `False`) is exact only between two convex solids: a solid
+                # strictly inside a non-convex one does not touch its surface
+                if role == "intersects" and q.startswith("MeshVolumeRegion") and not lib.holds(conds, f"{a}.isConvex and {b}.isConvex"):
+                    why = None
+                    t = t + "  [returned as the final answer although not both operands are known to be convex]"
+                else:
+                    why = "exact surface collision query (both operands convex)" if q.startswith("MeshVolumeRegion") else "exact surface collision query"
             elif t in (f"{a}.polygons.contains({b}._boundingPolygon)", f"{a}.polygons.covers({b}._boundingPolygon)"):
                 why = "exact polygon containment of the object's exact footprint"
             elif "signed_distance" in t and ".all(" in t.replace("numpy.all(", ".all(") and lib.holds(conds, f"{a}.isConvex"):
